@@ -5,3 +5,9 @@ package cmd
 
 // VerifRemoveQuotes exposes removeQuotes (applied by `start` to the -p argument).
 func VerifRemoveQuotes(s string) string { return removeQuotes(s) }
+
+// VerifExecute runs the REAL command line (`start`, `retry`, `restart`, …) exactly as main does.
+func VerifExecute(args []string) error {
+	rootCmd.SetArgs(args)
+	return rootCmd.Execute()
+}
